@@ -109,6 +109,17 @@ impl AttackGenerator {
     }
 }
 
+/// Verification hook (guard: cfg(any(kani, weechess_verif))): read-only access to the lazily
+/// initialised lookup data so that an external tool can dump it. Adds no behaviour.
+#[cfg(any(kani, weechess_verif))]
+pub mod verif_hooks {
+    pub use super::data::{
+        BISHOP_MAGICS, BISHOP_MAGIC_INDEXES, BISHOP_MAGIC_TABLE, BISHOP_SLIDE_MASKS, KING_ATTACKS,
+        KNIGHT_ATTACKS, PAWN_ATTACKS, ROOK_MAGICS, ROOK_MAGIC_INDEXES, ROOK_MAGIC_TABLE,
+        ROOK_SLIDE_MASKS,
+    };
+}
+
 mod data {
     use crate::{
         attacks::Direction, common, utils::ArrayMap, BitBoard, Color, File, Offset, Rank, Square,
